@@ -32,7 +32,8 @@ def valBE (bs : List Bool) : Nat :=
 
 /-- forward reader: take an `n`-bit little-endian field; `none` if fewer than `n` bits remain -/
 def readLE (n : Nat) (bits : List Bool) : Option (Nat × List Bool) :=
-  if bits.length < n then none else some (valLE (bits.take n), bits.drop n)
+  let t := bits.take n          -- (length of the prefix, not of the whole stream: keeps reads O(n))
+  if t.length < n then none else some (valLE t, bits.drop n)
 
 /-- The backward stream of a byte string: all its bits in reverse order, with the zero padding and
 the marker bit removed.  `none` when the last byte is 0 (no marker) or the string is empty. -/
@@ -49,14 +50,16 @@ def backwardStream (bytes : List Nat) : Option (List Bool) :=
 /-- backward reader: take an `n`-bit field, most significant bit first.
 Strict: reading past the beginning of the stream is an error (`none`). -/
 def readBE (n : Nat) (bits : List Bool) : Option (Nat × List Bool) :=
-  if bits.length < n then none else some (valBE (bits.take n), bits.drop n)
+  let t := bits.take n
+  if t.length < n then none else some (valBE t, bits.drop n)
 
 /-- backward reader that pads with zero bits past the beginning of the stream (used only where the
 RFC says so: peeking the last Huffman codes, and the final state update of FSE weight streams).
 Returns the value, the rest, and how many bits were missing. -/
 def readBEPad (n : Nat) (bits : List Bool) : Nat × List Bool × Nat :=
-  if bits.length < n then
-    (valBE bits * 2 ^ (n - bits.length), [], n - bits.length)
-  else (valBE (bits.take n), bits.drop n, 0)
+  let t := bits.take n
+  if t.length < n then
+    (valBE t * 2 ^ (n - t.length), [], n - t.length)
+  else (valBE t, bits.drop n, 0)
 
 end Zstd.Spec
